@@ -1,8 +1,82 @@
-(* C07 — placeholder while the proofs are being written: KATs only *)
-From Coq Require Import NArith List.
-From ISAL Require Import Base.Words Base.ListUtil Spec.AES Spec.GF128 Spec.GCM Model.GcmStream.
+(* C07 — AES-GCM streaming (init / update* / finalize) equals one-shot for any segmentation.
+   Statements only, each closed by an already-proved lemma.
+
+   What is proved, about the L1 model Model/GcmStream.v (gcm_init, gcm_update with the
+   PARTIAL_BLOCK carry, gcm_finalize): for every key of 16 or 32 bytes, 12-byte IV, AAD and
+   every LIST of segments (any lengths, zero and non-multiples of 16 included), encrypting or
+   decrypting, the concatenated update outputs and the tag equal the one-shot call on the
+   concatenation, and SP 800-38D; the context after the updates satisfies the invariant of
+   DESIGN C07.  All for every block-deferral policy, so for every family's representation of
+   the context.  The tie of the model to the assembly is the correspondence of checks/c07.py. *)
+From Coq Require Import NArith List Arith.
+From ISAL Require Import Base.Words Base.ListUtil Spec.AES Spec.GF128 Spec.GCM Model.GcmStream
+  Proofs.GcmFacts Proofs.GcmStreamFacts Proofs.GcmInst.
 Import ListNotations.
 
-Example C07_kat_tc4 :
-  gcm_oneshot_aes (key_expansion tc4_K) true tc4_IV tc4_A tc4_P 16 = (tc4_C, tc4_T).
+Theorem C07_stream_eq_oneshot : forall (defer : nat -> bool) (k iv aad : list N) (enc : bool)
+                                       (segs : list (list N)) (tag_len : nat),
+  length k = 16 \/ length k = 32 -> length iv = 12 -> (N.of_nat (length (concat segs)) < 2 ^ 64)%N ->
+  let rks := key_expansion k in
+  gcm_stream (cipher rks) (gcm_precomp (cipher rks)) defer enc iv aad segs tag_len =
+  gcm_oneshot (cipher rks) (gcm_precomp (cipher rks)) defer enc iv aad (concat segs) tag_len.
+Proof. exact c_stream_eq_oneshot. Qed.
+Print Assumptions C07_stream_eq_oneshot.
+
+(* ... and both are SP 800-38D on the concatenation *)
+Theorem C07_stream_is_38D : forall (defer : nat -> bool) (k iv aad : list N) (enc : bool)
+                                   (segs : list (list N)) (tag_len : nat),
+  length k = 16 \/ length k = 32 -> length iv = 12 -> (N.of_nat (length (concat segs)) < 2 ^ 64)%N ->
+  let rks := key_expansion k in
+  let r := if enc then gcm_ae k iv aad (concat segs) else gcm_ad k iv aad (concat segs) in
+  gcm_stream (cipher rks) (gcm_precomp (cipher rks)) defer enc iv aad segs tag_len =
+  (fst r, firstn tag_len (snd r)).
+Proof. exact c_stream_is_38D. Qed.
+Print Assumptions C07_stream_is_38D.
+
+(* the context after any list of updates: with X the bytes fed so far = closed blocks Xc ++
+   open block t (|t| = partial_block_length), aad_hash (byte-reflected) = GHASH state over A
+   and the closed ciphertext blocks, xor the open ciphertext bytes zero-padded;
+   current_counter (byte-reflected) = J0 + number of blocks started; partial_block_enc_key =
+   E(K, that counter) while a block is open; in_length = |X| mod 2^64; the outputs so far are
+   the GCTR stream of the standard (Proofs/GcmStreamFacts.v, Inv) *)
+Theorem C07_context_invariant : forall (defer : nat -> bool) (k iv aad : list N) (enc : bool) (segs : list (list N)),
+  length k = 16 \/ length k = 32 -> length iv = 12 ->
+  let E := cipher (key_expansion k) in
+  let Hh := gcm_precomp E in
+  let '(c, outs) := gcm_updates E Hh defer enc (gcm_init Hh iv aad) segs in
+  Inv E Hh iv aad enc c (concat segs) /\ outs = O E iv (concat segs) /\
+  in_length c = wrap 64 (N.of_nat (length (concat segs))).
+Proof. exact c_stream_invariant. Qed.
+Print Assumptions C07_context_invariant.
+
+(* non-vacuity: 66 bytes fed as updates of 0, 5, 11, 1, 16, 0, 33 bytes (partial blocks
+   left open, completed exactly, crossed; zero-length updates), AES-128 and AES-256, enc and
+   dec, both deferral policies, against gcm_ae / gcm_ad of the standard *)
+Definition c07_data : list N := tc4_P ++ firstn 6 tc4_A.
+Fixpoint c07_split (lens : list nat) (d : list N) : list (list N) :=
+  match lens with [] => [] | n :: r => firstn n d :: c07_split r (skipn n d) end.
+Definition c07_segs : list (list N) := c07_split [0; 5; 11; 1; 16; 0; 33] c07_data.
+
+Example C07_nonvacuous_segments : concat c07_segs = c07_data /\ map (@length N) c07_segs = [0; 5; 11; 1; 16; 0; 33].
+Proof. vm_compute. split; reflexivity. Qed.
+
+Example C07_nonvacuous_enc128 :
+  gcm_stream_aes (key_expansion tc4_K) true tc4_IV tc4_A c07_segs 16 = gcm_ae tc4_K tc4_IV tc4_A c07_data.
 Proof. vm_compute. reflexivity. Qed.
+
+Example C07_nonvacuous_dec256_tag12 :
+  gcm_stream_aes_vaes (key_expansion tc16_K) false tc16_IV tc16_A c07_segs 12 =
+  (fst (gcm_ad tc16_K tc16_IV tc16_A c07_data), firstn 12 (snd (gcm_ad tc16_K tc16_IV tc16_A c07_data))).
+Proof. vm_compute. reflexivity. Qed.
+
+(* 256 bytes in one update: the vaes policy leaves the 16th block open (partial_block_length
+   = 16), the other does not; the results are the same *)
+Definition c07_256 : list N := tc3_P ++ tc3_C ++ tc15_C ++ tc3_P.
+Example C07_nonvacuous_deferral :
+  let rks := key_expansion tc3_K in
+  let h := gcm_precomp (cipher rks) in
+  (pb_len (fst (gcm_update (cipher rks) h defer_vaes true (gcm_init h tc3_IV []) c07_256)),
+   pb_len (fst (gcm_update (cipher rks) h defer_none true (gcm_init h tc3_IV []) c07_256))) = (16, 0) /\
+  gcm_stream_aes_vaes rks true tc3_IV [] [c07_256; firstn 5 tc3_P] 16 =
+  gcm_stream_aes rks true tc3_IV [] [c07_256; firstn 5 tc3_P] 16.
+Proof. vm_compute. split; reflexivity. Qed.
